@@ -817,7 +817,7 @@ func (s *script) split(n int, min types.Currency, failPool bool) {
 		s.emit(op, "none")
 		return
 	}
-	t := &ftxn{h: h, v2: true, v2t: txn, signed: true, inPool: true, born: born}
+	t := &ftxn{h: h, v2: true, v2t: txn, signed: true, inPool: true, born: born, basis: e.cm.Tip()} // SplitUTXO rebased its set to the manager's tip
 	for _, in := range txn.SiacoinInputs {
 		t.inputs = append(t.inputs, in.Parent.ID)
 	}
